@@ -366,7 +366,13 @@ def gen_rep(rng, multi):
         "cls": rng.choice(["tabular", "tabular", "quick"]),
         "init_as": rng.choice(["dist", "state"]),
         "gamma_int": rng.random() < .5,
-        "h_as": rng.choice(["callable", "number", "int"]),
+        # form of the heuristic argument (impl: make_heuristic); the numeric forms apply to constant bounds.
+        # np.float32 only with C03_FLOAT32=1 (float32 arithmetic loses precision on the unchanged msdm, reported)
+        "h_as": rng.choice(["callable", "partial", "callable_object", "bound_method", "float", "int", "bool", "Fraction",
+                            "np.int64", "np.int64", "np.int32", "np.bool_", "np.float64", "array0d"]
+                           + (["np.float32"] if os.environ.get("C03_FLOAT32") else [])
+                           # unsigned scalars: with integer-typed rewards/discount NumPy 2 keeps uint8 and overflows (reported)
+                           + (["np.uint8"] if os.environ.get("C03_UINT8") else [])),
         "mdp_reuse": multi and rng.random() < .6,
         "touch": rng.random() < .3,
         "share": rng.random() < .5,            # one list / distribution object handed out for equal rows
@@ -500,7 +506,10 @@ def heuristic_for(rng, kind, Vmax, treasure):
     if treasure and kind == "const":
         kind = "exact"      # a constant bound of ~1e12 everywhere only tests double-precision cancellation
     if kind == "const":
-        c = max([F(0)] + Vmax) + rng.choice([0, 1, 5])
+        c = max([F(0)] + Vmax)
+        if rng.random() < .7:
+            c = F(math.ceil(c))                 # integral bound: can be handed over as int / np.int64 / bool ...
+        c += rng.choice([0, 1, 5])
         h = [c] * n
     elif kind == "exact":
         h = list(Vmax)
@@ -576,6 +585,9 @@ def gen_case(rng, tier, family=None):
     n = plans[0]["n"]
     Vmax = [max(V[s] for V in Vall) for s in range(n)]
     kind = rng.choice(["const", "exact", "slack"] + (["exact", "slack"] if shape in ("sparse", "neartie", "chain") else []))
+    rep = gen_rep(rng, len(plans) + 2 * len(other) > 1) if family not in ("large", "longchain") else {}
+    if rep.get("h_as") not in (None, "callable", "partial", "callable_object", "bound_method") and not other and rng.random() < .6:
+        kind = "const"      # a numeric (non-callable) heuristic only exists for constant bounds
     treasure = bool((tweak.get("jackpots") or {}).get("treasure"))
     h = heuristic_for(rng, kind, Vmax, treasure)
     out = [{"mdp": m, "vstar": [str(v) for v in V], "h": h} for m, V in zip(plans, Vall)]
@@ -587,7 +599,7 @@ def gen_case(rng, tier, family=None):
     return {"family": family, "shape": shape, "plans": out, "h": h, "hkind": kind,
             "seed": rng.randrange(4), "rao": rng.random() < .5, "rno": rng.random() < .5,
             "default_args": family in ("large", "longchain"), "tweak": tweak,
-            "rep": gen_rep(rng, len(out) > 1) if family not in ("large", "longchain") else {},
+            "rep": rep,
             "budget_mode": (rng.choice(["exact", "exact", "short"])
                             if family == "random" and single and rng.random() < .3 else None)}
 
@@ -944,13 +956,14 @@ def run(ctx):
             f["seed_%d" % case["seed"]] = True
             f["planner_object_reused"] = k > 0
             rp = case.get("rep", {})
-            for key in ("labels", "alabels", "dist", "actions_as", "cls", "init_as", "h_as"):
+            f["heuristic_form_" + str(rk.get("h_type"))] = True
+            for key in ("labels", "alabels", "dist", "actions_as", "cls", "init_as"):
                 f["rep_%s_%s" % (key, rp.get(key))] = True
             f["rep_gamma_int_1"] = bool(rp.get("gamma_int")) and F(cv["mdp"]["gamma"]) == 1
             f["rep_mdp_object_reused"] = bool(rp.get("mdp_reuse")) and k == 2
             f["rep_cached_views_touched"] = bool(rp.get("touch")) and rp.get("cls") != "quick"
             f["budget_exactly_needed"] = rk.get("budget_mode") == "exact"
-            f["h_noncallable_effective"] = rp.get("h_as") != "callable" and len({tuple(x) for x in case["h"]}) == 1
+            f["h_noncallable_effective"] = rk.get("h_type") not in ("lambda", "functools.partial", "callable_object", "bound_method")
             f["init_as_state_effective"] = rp.get("init_as") == "state" and len(cv["mdp"]["init"]) == 1
             f["tweak_extreme_probs"] = bool(case.get("tweak", {}).get("extreme_probs"))
             f["tweak_reward_scale"] = bool(case.get("tweak", {}).get("reward_scale"))
